@@ -1,4 +1,6 @@
 import Magog.Lemmas.FenInvariant
+import Magog.Lemmas.InvFen
+import Magog.Spec.MakeMove
 
 /-! Property C08: the FEN loader never panics, and what it accepts satisfies `FenInv` / `FenLists`. -/
 
@@ -212,6 +214,33 @@ theorem finalInv (p0 : Position) (flags ep : Nat) (ply : Int) (h : PInv 0 0 p0)
       rw [getD_of_getElem? hv] at this
       exact codes_split this
 
+/-- A placed position with exactly one king of each colour has a well-formed board and both sides'
+    lists describe exactly that colour's men (what `isUnderCheck` relies on); flags, en-passant square and
+    ply play no role. -/
+theorem placed_sides (p0 : Position) (h : PInv 0 0 p0)
+    (hwk : countKings p0.board Gen.WKing = 1) (hbk : countKings p0.board Gen.BKing = 1) :
+    Atk.BoardOk p0.board ∧ ∀ w, Atk.SideOk p0.board (p0.side w) w := by
+  have hc : castlingConsistent { p0 with flags := 0, ep := InvalidSq } = true := by
+    simp [castlingConsistent]
+  have hF := finalInv p0 0 InvalidSq 1 h hwk hbk (Or.inl rfl) hc (by decide)
+    (by simp only [Gen.maxFullMoveCounter]; decide) (by decide)
+  have hI := inv_of_fen hF.1 hF.2 (show (0 : Nat) < 32 by decide)
+  exact ⟨hI.board, fun w => by cases w; exact hI.black; exact hI.white⟩
+
+/-- the new "side not to move in check" test of the loader never panics: at that point the lists and
+    the board agree (`placed_sides`), so every index `isUnderCheck` forms is in range -/
+theorem oppCheck_total (p0 : Position) (flags ep : Nat) (h : PInv 0 0 p0)
+    (hwk : countKings p0.board Gen.WKing = 1) (hbk : countKings p0.board Gen.BKing = 1) :
+    ∃ b, isUnderCheck ({ p0 with flags := flags, ep := ep } : Position).board
+      (({ p0 with flags := flags, ep := ep } : Position).side (whiteTurn { p0 with flags := flags, ep := ep }))
+      (({ p0 with flags := flags, ep := ep } : Position).side (!whiteTurn { p0 with flags := flags, ep := ep })).king
+      = .ok b := by
+  obtain ⟨hb, hs⟩ := placed_sides p0 h hwk hbk
+  generalize whiteTurn { p0 with flags := flags, ep := ep } = w
+  show ∃ b, isUnderCheck p0.board (p0.side w) (p0.side (!w)).king = .ok b
+  obtain ⟨k1, k2, _⟩ := ((hs (!w)).king _).1 rfl
+  exact ⟨_, Atk.isUnderCheck_eq hb (hs w) (Geo.mem_sq88.2 ⟨k1, k2⟩)⟩
+
 theorem wrap16_id {x : Int} (h1 : -32768 ≤ x) (h2 : x < 32768) : wrap16 x = x := by
   unfold wrap16; omega
 
@@ -227,6 +256,12 @@ def tailPly (fields : List Bytes) (p : Position) (flags : Nat) : M (Except FenEr
     let ply := if flags &&& FWhiteTurn == 0 then wrap16 (ply + 1) else ply
     pure (.ok { p with ply })
 
+/-- the "side not to move is not in check" test (`isOpponentKingUnderCheck`), then the full-move counter -/
+def tailCheck (fields : List Bytes) (p : Position) (flags : Nat) : M (Except FenError Position) := do
+  let oppInCheck ← isUnderCheck p.board (p.side (whiteTurn p)) (p.side (!whiteTurn p)).king
+  if oppInCheck then pure (.error (.invalid "side not to move in check")) else
+  tailPly fields p flags
+
 def tailEp (fields : List Bytes) (p0 : Position) (flags : Nat) (epRes : Except FenError Nat) :
     M (Except FenError Position) :=
   match epRes with
@@ -236,7 +271,7 @@ def tailEp (fields : List Bytes) (p0 : Position) (flags : Nat) (epRes : Except F
     let epOk ← if ep == InvalidSq then pure true else epConsistent p
     if !epOk then pure (.error (.invalid "en passant")) else
     if !castlingConsistent p then pure (.error (.invalid "castling")) else
-    tailPly fields p flags
+    tailCheck fields p flags
 
 def epParse (eps : Bytes) : Except FenError Nat :=
   match eps with
@@ -317,6 +352,22 @@ theorem tailPly_spec (fields : List Bytes) (p : Position) (flags : Nat) :
       · simp [hw]
       · simp [hw]; omega
 
+theorem tailCheck_spec (fields : List Bytes) (p : Position) (flags : Nat)
+    (ht : ∃ b, isUnderCheck p.board (p.side (whiteTurn p)) (p.side (!whiteTurn p)).king = .ok b) :
+    ∃ r, tailCheck fields p flags = .ok r ∧ ∀ q, r = .ok q → MM.OppSafe p ∧
+      ∃ ply : Int, q = { p with ply := ply } ∧ 0 ≤ ply ∧ ply ≤ 2 * (Gen.maxFullMoveCounter : Int) ∧
+        (ply % 2 = if flags &&& FWhiteTurn != 0 then 0 else 1) ∧
+        ∃ n : Int, atoi (fields.getD 5 []) = some n ∧ 1 ≤ n ∧ n ≤ (Gen.maxFullMoveCounter : Int) ∧
+          ply = 2 * (n - 1) + (if flags &&& FWhiteTurn != 0 then 0 else 1) := by
+  obtain ⟨b, hb⟩ := ht
+  unfold tailCheck
+  rw [bind_ok' _ hb]
+  cases b with
+  | true => exact ⟨_, rfl, by intro _ e; cases e⟩
+  | false =>
+    obtain ⟨r, hr1, hr2⟩ := tailPly_spec fields p flags
+    exact ⟨r, hr1, fun q hq => ⟨hb, hr2 q hq⟩⟩
+
 theorem epParse_range (eps : Bytes) (ep : Nat) (h : epParse eps = .ok ep) :
     ep = InvalidSq ∨ (16 ≤ ep ∧ ep < 112) := by
   unfold epParse at h
@@ -343,7 +394,7 @@ theorem tailEp_spec (fields : List Bytes) (p0 : Position) (flags : Nat) (epRes :
     (h : PInv 0 0 p0) (hwk : countKings p0.board Gen.WKing = 1) (hbk : countKings p0.board Gen.BKing = 1)
     (hepr : ∀ ep, epRes = .ok ep → ep = InvalidSq ∨ (16 ≤ ep ∧ ep < 112)) :
     ∃ r, tailEp fields p0 flags epRes = .ok r ∧
-      ∀ q, r = .ok q → FenInv q ∧ FenLists q ∧ TailFaith fields flags epRes p0 q := by
+      ∀ q, r = .ok q → FenInv q ∧ FenLists q ∧ TailFaith fields flags epRes p0 q ∧ MM.OppSafe q := by
   unfold tailEp
   split
   · exact ⟨_, rfl, by intro _ e; cases e⟩
@@ -354,8 +405,8 @@ theorem tailEp_spec (fields : List Bytes) (p0 : Position) (flags : Nat) (epRes :
         ∃ r, (if (!b) = true then (pure (.error (.invalid "en passant")) : M (Except FenError Position))
           else if (!castlingConsistent { p0 with flags := flags, ep := ep }) = true then
             pure (.error (.invalid "castling"))
-          else tailPly fields { p0 with flags := flags, ep := ep } flags) = .ok r ∧
-          ∀ q, r = .ok q → FenInv q ∧ FenLists q ∧ TailFaith fields flags (.ok ep) p0 q := by
+          else tailCheck fields { p0 with flags := flags, ep := ep } flags) = .ok r ∧
+          ∀ q, r = .ok q → FenInv q ∧ FenLists q ∧ TailFaith fields flags (.ok ep) p0 q ∧ MM.OppSafe q := by
       intro b hb'
       split
       · exact reject_ok
@@ -364,12 +415,13 @@ theorem tailEp_spec (fields : List Bytes) (p0 : Position) (flags : Nat) (epRes :
       · exact reject_ok
       next hct =>
       simp only [Bool.not_eq_true', Bool.not_eq_false, Bool.not_eq_true] at hbt hct
-      obtain ⟨r, hr1, hr2⟩ := tailPly_spec fields { p0 with flags := flags, ep := ep } flags
+      obtain ⟨r, hr1, hr2⟩ := tailCheck_spec fields { p0 with flags := flags, ep := ep } flags
+        (oppCheck_total p0 flags ep h hwk hbk)
       refine ⟨r, hr1, ?_⟩
       intro q hq
-      obtain ⟨ply, rfl, hp1, hp2, hp3, n, hn1, hn2, hn3, hn4⟩ := hr2 q hq
+      obtain ⟨hsafe, ply, rfl, hp1, hp2, hp3, n, hn1, hn2, hn3, hn4⟩ := hr2 q hq
       have := finalInv p0 flags ep ply h hwk hbk (hb' hbt) hct hp1 hp2 hp3
-      exact ⟨this.1, this.2, rfl, rfl, rfl, n, hn1, hn2, hn3, hn4⟩
+      exact ⟨this.1, this.2, ⟨rfl, rfl, rfl, n, hn1, hn2, hn3, hn4⟩, hsafe⟩
     dsimp only
     split
     · next he =>
@@ -387,7 +439,7 @@ theorem tailEp_spec (fields : List Bytes) (p0 : Position) (flags : Nat) (epRes :
 theorem tailKings_spec (fields : List Bytes) (p : Position) (h : PInv 0 0 p) :
     ∃ r, tailKings fields p = .ok r ∧ ∀ q, r = .ok q → FenInv q ∧ FenLists q ∧
       TailFaith fields (flagsOf fields) (epParse (fields.getD 3 [])) p q ∧
-      (fields.getD 1 [] = [119] ∨ fields.getD 1 [] = [98]) ∧ (fields.getD 3 []).length ≤ 2 := by
+      (fields.getD 1 [] = [119] ∨ fields.getD 1 [] = [98]) ∧ (fields.getD 3 []).length ≤ 2 ∧ MM.OppSafe q := by
   unfold tailKings
   split
   · exact reject_ok
@@ -403,21 +455,22 @@ theorem tailKings_spec (fields : List Bytes) (p : Position) (h : PInv 0 0 p) :
   obtain ⟨r, hr, hs⟩ := tailEp_spec fields p (flagsOf fields) (epParse (fields.getD 3 [])) h hk.1 hk.2 (epParse_range _)
   refine ⟨r, hr, ?_⟩
   intro q hq
-  obtain ⟨a, b, c⟩ := hs q hq
-  refine ⟨a, b, c, ?_, by omega⟩
+  obtain ⟨a, b, c, c'⟩ := hs q hq
+  refine ⟨a, b, c, ?_, by omega, c'⟩
   simp only [Bool.and_eq_true, bne_iff_ne, ne_eq, not_and, Decidable.not_not] at ht
   by_cases e : fields.getD 1 [] = [119]
   · exact Or.inl e
   · exact Or.inr (ht e)
 
-/-- everything the loader guarantees, relative to the input -/
-theorem parseFen_spec (s : Bytes) :
+/-- everything the loader guarantees, relative to the input (with the "side not to move is not in
+    check" guarantee `MM.OppSafe` as last component) -/
+theorem parseFen_spec_safe (s : Bytes) :
     ∃ r, parseFen s = .ok r ∧ ∀ q, r = .ok q → FenInv q ∧ FenLists q ∧
       (∀ c ∈ s, c ≤ 127) ∧ (splitOn 32 s).length = 6 ∧ (splitOn 47 ((splitOn 32 s).getD 0 [])).length = 8 ∧
       (∃ p0, RanksFaith (splitOn 47 ((splitOn 32 s).getD 0 [])) 0 emptyPosition p0 ∧
         TailFaith (splitOn 32 s) (flagsOf (splitOn 32 s)) (epParse ((splitOn 32 s).getD 3 [])) p0 q) ∧
       ((splitOn 32 s).getD 1 [] = [119] ∨ (splitOn 32 s).getD 1 [] = [98]) ∧
-      ((splitOn 32 s).getD 3 []).length ≤ 2 := by
+      ((splitOn 32 s).getD 3 []).length ≤ 2 ∧ MM.OppSafe q := by
   rw [parseFen_eq]
   split
   · exact reject_ok
@@ -443,5 +496,25 @@ theorem parseFen_spec (s : Bytes) :
     intro c hc
     simp only [List.any_eq_true, decide_eq_true_eq, not_exists, not_and, Nat.not_lt] at hasc
     exact hasc c hc
+
+/-- everything the loader guarantees, relative to the input -/
+theorem parseFen_spec (s : Bytes) :
+    ∃ r, parseFen s = .ok r ∧ ∀ q, r = .ok q → FenInv q ∧ FenLists q ∧
+      (∀ c ∈ s, c ≤ 127) ∧ (splitOn 32 s).length = 6 ∧ (splitOn 47 ((splitOn 32 s).getD 0 [])).length = 8 ∧
+      (∃ p0, RanksFaith (splitOn 47 ((splitOn 32 s).getD 0 [])) 0 emptyPosition p0 ∧
+        TailFaith (splitOn 32 s) (flagsOf (splitOn 32 s)) (epParse ((splitOn 32 s).getD 3 [])) p0 q) ∧
+      ((splitOn 32 s).getD 1 [] = [119] ∨ (splitOn 32 s).getD 1 [] = [98]) ∧
+      ((splitOn 32 s).getD 3 []).length ≤ 2 := by
+  obtain ⟨r, hr, hs⟩ := parseFen_spec_safe s
+  refine ⟨r, hr, fun q hq => ?_⟩
+  obtain ⟨a, b, c, d, e, f, g, g', _⟩ := hs q hq
+  exact ⟨a, b, c, d, e, f, g, g'⟩
+
+/-- in every accepted position the side not to move is not in check (the loader's last structural test) -/
+theorem parseFen_oppSafe {s : Bytes} {p : Position} (h : parseFen s = .ok (.ok p)) : MM.OppSafe p := by
+  obtain ⟨r, hr, hs⟩ := parseFen_spec_safe s
+  rw [h] at hr
+  simp only [Except.ok.injEq] at hr
+  exact (hs p hr.symm).2.2.2.2.2.2.2.2
 
 end Magog.FenLemmas
